@@ -386,7 +386,10 @@ def mk_track(rt):
     if rt[0] is not None:
         t.name = rt[0]
     for rb in rt[2]:
-        t.add_bar(mk_bar(rb))
+        if rb[0] == "same":          # ("same", i): the Bar OBJECT already standing at place i, once more
+            t.add_bar(t.bars[rb[1]])
+        else:
+            t.add_bar(mk_bar(rb))
     return t
 
 
@@ -405,6 +408,19 @@ def mk_composition(rc):
     other.add_track(Track())
     _BYSTANDERS.append(other)
     del _BYSTANDERS[:-3]
+    # the objects are what the RECIPE says (the expected file is worked out from the objects further on: an object that
+    # lost its instrument number, its name or its bars to a sibling built later would otherwise go unnoticed)
+    if len(c.tracks) != len(rc):
+        raise AssertionError("composition built from %d track recipes holds %d tracks" % (len(rc), len(c.tracks)))
+    for i, (rt, t) in enumerate(zip(rc, c.tracks)):
+        got = track_spec(t)
+        if rt[1] not in (None, "plain") and got["instr"] != rt[1]:
+            raise AssertionError("track %d was given MIDI instrument number %r and holds %r once the composition is "
+                                 "complete" % (i, rt[1], got["instr"]))
+        if rt[0] is not None and got["name"] != rt[0]:
+            raise AssertionError("track %d was named %r and is named %r once the composition is complete" % (i, rt[0], got["name"]))
+        if len(t.bars) != len(rt[2]):
+            raise AssertionError("track %d was given %d bars and holds %d" % (i, len(rt[2]), len(t.bars)))
     return c
 
 
@@ -656,6 +672,35 @@ def _run(cx, rnd, quick):
     for _ in range(1500 if quick else 25000):
         go("write_Bar", "bar", rand_bar(rnd, spellings, allvalues), bpm=rnd.randint(4, 600),
            repeat=rnd.choice([0, 0, 1, 2, 4]))
+    # the SAME Bar object more than once in a track (A A, A B A, A B B A): every occurrence is written where it stands,
+    # with whatever rest is pending before it
+    def same_bar_again(form):
+        def build(rt):
+            t = mk_track((rt[0], rt[1], []))
+            made = [mk_bar(rb) for rb in rt[2]]
+            for i in form:
+                t.add_bar(made[i % len(made)])
+            return t
+        return build
+    fixed = [("C", (4, 4), [(4, [N]), (2, None), (4, None)]), ("C", (4, 4), [(4, None), (4, [B2]), (2, [N])]),
+             ("C", (4, 4), [(1, None)])]
+    for form in ((0, 0), (0, 1, 0), (0, 1, 1, 0), (2, 0, 2, 0), (0, 2, 0), (1, 1, 1)):
+        for instr in (None, 40):
+            recipe = ("again", instr, fixed)
+            R.case("write_Track", ("same bar object again", form, instr))
+            ok, obj = R.guard("write_Track", "bytes-produced", (recipe, form), lambda: same_bar_again(form)(recipe))
+            if ok:
+                check_written(cx, "write_Track", "track", obj, (recipe, "bars in the order %r (same objects)" % (form,)), 120, 0)
+    for _ in range(150 if quick else 3000):
+        rt = rand_track(rnd, spellings, allvalues)
+        if not rt[2]:
+            continue
+        form = tuple(rnd.randrange(len(rt[2])) for _j in range(rnd.randint(2, 5)))
+        R.case("write_Track", ("same bar object again", form))
+        ok, obj = R.guard("write_Track", "bytes-produced", (rt, form), lambda: same_bar_again(form)(rt))
+        if ok:
+            check_written(cx, "write_Track", "track", obj, (rt, "bars in the order %r (same objects)" % (form,)),
+                          rnd.randint(4, 600), rnd.choice([0, 0, 1]))
     # ---------------- tempo
     for bpm in range(4, 1001 if quick else 20001):
         go("tempo", "bar" if bpm % 2 else "note", ("C", (4, 4), [(4, [N])]) if bpm % 2 else N, bpm=bpm)
